@@ -573,12 +573,13 @@ func normalizeValue(
 
 			// Do not attach c itself to the normalized tree, as this would
 			// change path and parent of the configuration passed by the
-			// user. The settings are shared only until merging copies them.
-			sub := &Config{ctx: ctx, metadata: c.metadata, fields: c.fields}
-			if sub.fields == nil {
-				sub.fields = &fields{}
+			// user, and do not share its settings either: other keys of the
+			// same input (e.g. dotted keys) are written into the normalized
+			// tree before merging copies it.
+			if c.fields == nil {
+				return cfgSub{&Config{ctx: ctx, metadata: c.metadata, fields: &fields{}}}, nil
 			}
-			return cfgSub{sub}, nil
+			return cfgSub{c}.cpy(ctx), nil
 		}
 
 		return normalizeStructValue(opts, ctx, v)
